@@ -33,6 +33,7 @@ type caseDesc struct {
 }
 
 type env struct {
+	hung     bool // a run did not return: stop generating, report what we have
 	o        *vh.Opts
 	sum      *vh.Summary
 	cw       *vh.CaseWriter
@@ -161,6 +162,9 @@ func (e *env) checkFault(v iox.Variant, in []byte, sc iox.Schedule, fd faultDesc
 	for _, s := range steps {
 		if s.Kind == "panic" || s.Kind == "hang" {
 			fail("transform "+s.Kind+" with a failing input reader ("+s.Txt+")", nil)
+			if s.Kind == "hang" {
+				e.hung = true
+			}
 			return fr.FaultCalls > 0
 		}
 	}
@@ -306,6 +310,9 @@ func (e *env) checkInput(r *vh.Rng, v iox.Variant, in []byte, kind string) {
 	base, _ := iox.Run(cs, v.FmtIdx, iox.NewChunkReader(in, whole), len(in)/2+12, 0)
 	for _, fd := range faultPositions(r, v, in) {
 		for _, once := range []bool{false, true} {
+			if e.hung {
+				return
+			}
 			fd := fd
 			fd.Once = once
 			fd.WithData = r.Chance(0.25)
@@ -417,7 +424,7 @@ func main() {
 	}
 
 	total := o.Count(330, 6000)
-	for c := 0; c < total; c++ {
+	for c := 0; c < total && !e.hung; c++ {
 		v := e.variants[r.Pick(len(e.variants))]
 		in, kind := iox.GenInput(r, v)
 		e.checkInput(r, v, in, kind)
